@@ -1,6 +1,8 @@
 package main
 
 import (
+	"os"
+	"path/filepath"
 	"github.com/smallnest/rpcx/protocol"
 	"sync/atomic"
 	"sync"
@@ -296,7 +298,16 @@ func c12RunX(o *common.Out, id string, kind string, ops []c12op) {
 				d, _ = client.NewMultipleServersDiscovery(pairsOf(op.servers))
 				opt := client.DefaultOption
 				opt.Heartbeat = false
-				xc = client.NewXClient("p", client.Failfast, mode, d, opt)
+				var disc client.ServiceDiscovery = d
+				if len(ops)%2 == 0 {
+					// every other history: the discovery sits behind the caching wrapper (threshold -1: it never substitutes
+					// its cache) - whatever is published passes through
+					if dir, err := os.MkdirTemp("", "vh-c12-"); err == nil {
+						defer os.RemoveAll(dir)
+						disc = client.CacheDiscovery(-1, filepath.Join(dir, "discovery.json"), d)
+					}
+				}
+				xc = client.NewXClient("p", client.Failfast, mode, disc, opt)
 				defer xc.Close()
 				// the client's own kind of selector behind a tap that counts the updates it is given: an update that
 				// announces the set the client already has cannot be told from its server map
